@@ -9,12 +9,14 @@ LEAN_PROPS = "Litep2pVerif.Props.C16"
 THEOREMS = ["terminal_once", "terminal_accounted", "waiting_owned", "occupied_unreachable",
             "terminal_once_at_quiescence", "put_quorum_sound", "quorum_clamp_rule", "settle_covers_timeouts",
             "executor_exactly_one_result", "executor_results_allowed", "every_query_terminates",
-            "manual_validation_never_stores", "inbound_answered_per_kind", "manual_update_never_adds"]
-CONSTS = ["KAD_READ_TIMEOUT_SECS", "KAD_WRITE_TIMEOUT_SECS"]
+            "manual_validation_never_stores", "inbound_answered_per_kind", "manual_update_never_adds",
+            "terminal_event_never_dropped", "try_send_drops_witness", "every_query_terminates_when_user_reads"]
+CONSTS = ["KAD_READ_TIMEOUT_SECS", "KAD_WRITE_TIMEOUT_SECS", "KAD_EVENT_CHANNEL_SIZE"]
 _EXE = "src/protocol/libp2p/kademlia/executor.rs"
 CONST_TABLE = [
     ("KAD_READ_TIMEOUT_SECS", _EXE, r"const READ_TIMEOUT: Duration = Duration::from_secs\(([^)]+)\);", 15),
     ("KAD_WRITE_TIMEOUT_SECS", _EXE, r"const WRITE_TIMEOUT: Duration = Duration::from_secs\(([^)]+)\);", 15),
+    ("KAD_EVENT_CHANNEL_SIZE", "src/lib.rs", r"const DEFAULT_CHANNEL_SIZE: usize = (\d+)usize;", 4096),
 ]
 MANIFEST = {
     "text": "Lean 4 theorems about an executable model of the Kademlia coordinator (pending dials, pending substreams, "
@@ -45,7 +47,13 @@ MANIFEST = {
             "manual_validation_never_stores (Manual mode: every stored key was stored by the user; Automatic: an acceptable "
             "inbound record is stored), inbound_answered_per_kind (FIND_NODE/GET_VALUE/PUT_VALUE/GET_PROVIDERS answered, "
             "ADD_PROVIDER/key-less/undecodable not, whatever the configuration), manual_update_never_adds - tied to the real "
-            "Kademlia serving scripted inbound substreams under the ConfigBuilder options.",
+            "Kademlia serving scripted inbound substreams under the ConfigBuilder options. Event channel "
+            "(Model/Kad/Events.lean, every capacity and every schedule of sends, suspensions and reads): "
+            "terminal_event_never_dropped (read ++ queued ++ held by the suspended send ++ not yet sent = emitted, in order; "
+            "a user who keeps reading has read exactly the emitted sequence), try_send_drops_witness (the contrast), "
+            "every_query_terminates_when_user_reads (exactly one terminal event per started operation is READ however "
+            "often the channel was full) - tied by bursts of more than DEFAULT_CHANNEL_SIZE operations / events of every "
+            "kind while the user does not read the real handle.",
     "note": "Trusted: Lean kernel; axioms propext/Classical.choice/Quot.sound; the hand-written model and its tie (sampled "
             "trace validation through adapter src/verif/c16.rs and its three trace points in kademlia/mod.rs); the iterative "
             "lookups are abstract (hypotheses: a lookup with no pending peer acts; no peer is queried twice; fan-out targets "
@@ -75,7 +83,12 @@ RULE = ("seeded scenarios on networks of 2-5 remote peers (address kinds dialabl
         "around the bounds) / ADD_PROVIDER (own / foreign provider) / GET_PROVIDERS / key-less / undecodable / silent / "
         "closing requesters x store_record / put_record / get_record / start_providing / stop_providing (try_ and awaiting "
         "handle variants) x lookups answered with peer lists x clock advances across the refresh interval, ending with "
-        "`settle`; nine fixed cases (one per newly driven region) at every seed")
+        "`settle`; nine fixed cases (one per newly driven region) at every seed; event-channel cases (13 per seed): "
+        "`burst n <op>` = n in 4097..4296 operations of every kind back to back while the user does not read, `hold` .. "
+        "`release <op>` with the channel exactly full / one or two short when one RoutingTableUpdate + FindNodeSuccess / "
+        "network partial result / IncomingRecord / IncomingProvider / PutRecordSuccess is due, 4100+ inbound PUT_VALUEs; "
+        "after a release / burst the user reads one event per scheduling round; routing-table wiring histories "
+        "(checks/kadwire.py, `t` box) for the tie of Model/Kad/TableWiring.lean")
 TRUSTED_BASE = ["Lean 4.33 kernel", "axioms: propext, Classical.choice, Quot.sound only",
                 "hand-written model Model/Kad/Coordinator.lean tied to kademlia/mod.rs by trace validation",
                 "adapter /repo/src/verif/c16.rs (+ c16_engine.rs, c16_manager.rs), three trace points in kademlia/mod.rs, "
@@ -87,7 +100,10 @@ TRUSTED_BASE = ["Lean 4.33 kernel", "axioms: propext, Classical.choice, Quot.sou
                 "tokio paused clock for the 15 s executor timeouts; in-memory yamux substreams",
                 "adapter src/verif/c16_exec.rs: the real QueryExecutor on Substreams over scripted in-memory pipes "
                 "(src/verif/io.rs), polled once per logical second",
-                "hand-written models Model/Kad/Executor.lean and Model/Kad/Serve.lean tied by the same differential run"]
+                "hand-written models Model/Kad/Executor.lean and Model/Kad/Serve.lean tied by the same differential run",
+                "Model/Kad/Events.lean: tokio's bounded mpsc channel as FIFO + one suspended sender (the coordinator is the "
+                "only sender of the event channel); tied by the burst / hold / release cases",
+                "adapter src/verif/c16_table.rs (`t` box, dictated keys) for the routing-table wiring model"]
 ASSUMPTIONS = ["every accepted dial is concluded, every accepted substream open is answered, every executor future completes "
                "(by reply, close or its timeout) - the real transport manager breaks the first one when the node is at its "
                "outgoing-connection limit (defect dial-at-connection-limit-never-concluded, repaired by a fix: commit; S2 witness in the corpus)",
@@ -448,6 +464,9 @@ def gen_cases(rng, tier):
     for _ in range(n_serve):
         yield serve_case(rng)
     yield from fixed_new_cases()
+    yield from channel_cases(rng)
+    from . import kadwire
+    yield from kadwire.gen_wire_cases(rng, "quick" if tier == "quick" else "search")
     g = Gen(rng)
     for _ in range(n_coop):
         g.key = 0
@@ -463,6 +482,51 @@ def gen_cases(rng, tier):
     yield ["x sub 1 frob", "x sub 1 send w@0", "x sub 1 send", "x tick 999", "x sub 2 read msg@x", "net g g"]
     yield ["net g g valid=maybe", "net g g default=1 repl=2", "net g g", "inbound 1 frob", "inbound 9 garbage",
            "store_record x", "stop_providing", "find_node_b 1", "start_providing_a 1 one", "settle"]
+
+
+def channel_cases(rng):
+    """The user does not read the handle while more events are produced than the event channel holds
+    (DEFAULT_CHANNEL_SIZE = 4096): every `event_tx.send(..).await` of the coordinator suspends instead of dropping -
+    terminal failures, terminal successes, partial results, IncomingRecord / IncomingProvider, RoutingTableUpdate."""
+    cap = 4096
+    over = lambda: cap + rng.choice([1, 4, 57, 200])
+    # failures / successes of every operation kind on an empty routing table, back to back
+    starts = ["find_node 3", "get_record 9 one", "get_record 9 all", "put_record 2 one", "put_record 2 all",
+              "start_providing 4 one", "get_providers 6", "put_record_to 7 - one", "put_record_to 7 1,2 all"]
+    yield ["net g g", f"burst {over()} find_node {rng.randrange(1, 9)}", "settle"]
+    for s in rng.sample(starts[1:], 3):
+        yield ["net g g", f"burst {over()} {s}", "settle"]
+    # two events per operation (partial result + success straight from the command arm), odd / even overflow
+    yield ["net g g", "store_record 1", f"burst {cap // 2 + rng.choice([1, 2, 30])} get_record 1 one", "settle"]
+    # a mix within one case, the channel overflowing in the second burst; user reads in between or not
+    a, b = rng.randrange(500, 1400), rng.randrange(300, 1200)        # 2a + b < 4096: nothing suspends while held
+    yield ["net g g", "store_record 1", "hold", f"burst {a} get_record 1 one", f"burst {b} find_node 2",
+           f"release burst {cap - 2 * a - b + rng.choice([0, 1, 2, 77])} get_record 2 all", "find_node 1", "hold",
+           "find_node 2", "release", "settle"]
+    # the channel exactly full / one short when the event(s) of one handler are due: a handler's first send suspends
+    # (full) or just fits and its second send finds the channel full (one short)
+    fills = {"full": [f"burst {cap // 2} get_record 1 one"],
+             "short": [f"burst {cap // 2 - 1} get_record 1 one", "inbound 1 put_value 9"]}
+    for name in ("full", "short"):
+        fill = fills[name]
+        yield ["net g g g", "add_known_peer 1", "established 1", "find_node 5", "subopen #0", "store_record 1", "hold"] + fill + \
+              ["release reply #0 nodes=-", "settle"]                        # RoutingTableUpdate, FindNodeSuccess
+        yield ["net g g", "established 1", "store_record 1", "hold"] + fill + \
+              [f"release inbound 1 put_value {rng.randrange(2, 9)}", "settle"]   # IncomingRecord
+    which = rng.choice(["full", "short"])
+    yield ["net g g g", "add_known_peer 1", "established 1", "find_node 5", "subopen #0", "store_record 1", "hold"] + fills[which] + \
+          [f"release reply #0 nodes={rng.choice(['2,3', '2'])}", "settle"]
+    yield ["net g g g", "add_known_peer 1", "established 1", "get_record 8 all", "subopen #0", "store_record 1", "hold"] + \
+          fills[rng.choice(["full", "short"])] + ["release reply #0 nodes=- value", "settle"]   # partial result, success
+    yield ["net g g", "established 1", "store_record 1", "hold"] + fills[rng.choice(["full", "short"])] + \
+          [f"release inbound 1 add_provider {rng.randrange(2, 9)}", "settle"]                 # IncomingProvider
+    yield ["net g g", "add_known_peer 1", "established 1", "store_record 1", "put_record_to 3 1 one", "subopen #0", "hold"] + \
+          fills[rng.choice(["full", "short"])] + ["release reply #0", "settle"]                 # PutRecordSuccess
+    yield ["net g g", "store_record 1", "hold", fills["short"][0], "find_node 7", "release get_record 1 one", "settle"]  # partial + success (command arm)
+    # more inbound records than the channel holds
+    yield ["net g g", "established 1", f"burst {over()} inbound 1 put_value 3", "settle"]
+    yield ["net g g", "burst 0 find_node 1", "burst 7000 find_node 1", "burst 3 frob", "release", "hold", "hold", "burst 3",
+           "release frob", "release", "settle"]
 
 
 def fixed_new_cases():
@@ -642,12 +706,29 @@ def oracle(case, out):
         if op.startswith("s2 "):
             oracle_s2(op, o, i, v)
             continue
+        if op.startswith("t "):
+            continue          # routing-table wiring histories: judged by C14 (checks/kadwire.py); here only the tie
         head, parts = split_parts(op, o)
         for sub, obs in parts:
             t = sub.split()
+            if t and t[0] == "release":
+                t = t[1:] or ["events"]
             if t and t[0].endswith("_a"):
                 t[0] = t[0][:-2]
             toks = tokens_of(obs)
+            if len(t) > 2 and t[0] == "burst":
+                # `burst n <op>`: the head is `q=a..b` / `in=a..b` / `ok*n`
+                t = t[2:]
+                m = re.fullmatch(r"(q|in)=(\d+)\.\.(\d+)", toks[0]) if toks else None
+                heads = [f"{m.group(1)}={k}" for k in range(int(m.group(2)), int(m.group(3)) + 1)] if m else \
+                    (toks[0].split(",") if toks and "*" not in toks[0] else [])
+                for h in heads:
+                    sv.op(t, [h], i)
+                    if h.startswith("q=") and h[2:].isdigit() and t[0] in TERMINALS:
+                        started[int(h[2:])] = t[0]
+                        if t[0] in ("put_record", "put_record_to", "start_providing") and len(t) > 1:
+                            put_key[int(h[2:])] = t[1]
+                t, toks = ["events"], ["-"] + toks[1:]
             sv.op(t, toks, i)
             if toks and toks[0].startswith("q=") and t and t[0] in TERMINALS:
                 q = int(toks[0][2:])
